@@ -1,10 +1,10 @@
 SPECIFICATION MCSpec
 CONSTANTS
-  MaxSends = 13
+  MaxSends = 9
   MaxVer = 3
   Names = {"", "a"}
   PNames = {"", "p"}
-  CustomCache = FALSE
+  CustomCache = TRUE
 VIEW View
 INVARIANT TypeOK
 INVARIANT ExecUsesSnapshot
